@@ -312,7 +312,11 @@ fn switch_between_existing(h: &mut Harness, ch: &mut Choices) {
         }
     };
     let qt = tag_of(h, q);
-    let b = some!(h.act_new_node(Expr::Bind(Box::new(Expr::Ref(s)), Rc::new(vec![Expr::Ref(pt), Expr::Ref(qt)]))));
+    // decoder 3: the second arm may instead be built inside the closure on top of the first
+    // right-hand side (the new right-hand side then depends on the old one)
+    let v3 = crate::choice::dv() >= 3;
+    let second = if v3 && ch.flag(1, 3) { Expr::Map(ch.byte() % 8, Box::new(Expr::Ref(pt))) } else { Expr::Ref(qt) };
+    let b = some!(h.act_new_node(Expr::Bind(Box::new(Expr::Ref(s)), Rc::new(vec![Expr::Ref(pt), second]))));
     if let Some(e) = early {
         if ch.flag(2, 3) {
             h.act_observe(e);
@@ -324,7 +328,7 @@ fn switch_between_existing(h: &mut Harness, ch: &mut Choices) {
         h.act_stabilise();
         h.after_action("stabilise");
     }
-    h.act_observe(b);
+    let ob = h.act_observe(b);
     h.act_stabilise();
     h.after_action("stabilise");
     for _ in 0..2 + ch.choose(5) {
@@ -346,6 +350,20 @@ fn switch_between_existing(h: &mut Harness, ch: &mut Choices) {
         }
         h.act_stabilise();
         h.after_action("stabilise");
+    }
+    // decoder 3: the bind goes away altogether; what it used to share with others must go on working
+    if v3 && ch.flag(1, 2) {
+        if let Some(o) = ob {
+            h.act_drop_obs(o, 0);
+        }
+        h.act_drop_node_handle(b);
+        h.act_stabilise();
+        h.after_action("stabilise");
+        for _ in 0..1 + ch.choose(2) {
+            h.act_write(xv, WriteOp::Set, pv(ch));
+            h.act_stabilise();
+            h.after_action("stabilise");
+        }
     }
 }
 
